@@ -306,8 +306,8 @@ Proof.
 Qed.
 
 (* the class of NumPy results the tie is proved for: an error, a genuine scalar, an array of 1 to 3 dimensions.
-   Outside it (a 0-d array produced with an Ellipsis, a result above 3-D) the model returns an error in every case and
-   so does the implementation (differential testing); the equality is not proved there *)
+   Outside it (a 0-d array produced with an Ellipsis, a result above 3-D) the model returns an error in every case; those
+   two classes are treated further down (gen_getitem_0d, gen_getitem_big, gen_getitem_full) *)
 Definition np_plain (r : npres) (its : list item) : bool :=
   match r with NPErr => true | NPArr _ _ => true | NPScalar _ => negb (existsb is_ell its) | NPBig _ => false end.
 Theorem gen_getitem_tie x v : idx_val v = true ->
@@ -413,3 +413,214 @@ Example source_ex :
   idx_val v = true /\ np_plain (np_getitem (shape x) (dat x) (abs_items v)) (abs_items v) = true /\
   res_of (gen_getitem x v) = Some (mkv [1; 10] [0; 1; 2; 3; 4; 5; 6; 7; 8; 9] 5 1000 1 (LMany [70]) (LOne 90)).
 Proof. cbn zeta. split; [reflexivity|]. split; vm_compute; reflexivity. Qed.
+
+
+(* ------------------------------------------------------------------ the two remaining classes of NumPy results: a 0-d array
+   (all axes indexed by ints, with an Ellipsis) and a result above 3-D.  Facts about the model only. *)
+Definition x_items (i : xindex) : list item := match i with XIdx ix => items ix | XArr zs => [IList zs] end.
+
+Lemma normalize_x_expand i nd ex s :
+  np_expand nd (x_items i) = Some ex -> normalize_x i nd = inr s ->
+  s = map conv1 ex \/ (exists bs, In (IMask bs true) ex) /\ zlen s = zlen ex.
+Proof.
+  intros He Hn. destruct i as [ix|zs]; cbn [x_items normalize_x] in *.
+  - destruct (all_true_arr ix) eqn:A.
+    + right. unfold all_true_arr in A. destruct ix as [so its]. cbn [sole items] in *.
+      destruct so; [|discriminate]. cbn [andb] in A.
+      destruct its as [|[| | |bs [|]| |] [|it2 its]]; try discriminate.
+      unfold normalize_index in Hn. cbn [sole items] in Hn. rewrite A in Hn.
+      revert He. unfold np_expand. cbn. destruct (1 >? nd) eqn:E; [discriminate|]. intros He. injection He as <-.
+      split; [exists bs; now left|].
+      destruct bs as [|b bs].
+      * cbn [andb] in Hn. unfold normalize_tuple in Hn. cbn in Hn. injection Hn as <-.
+        rewrite ?zlen_app, ?zlen_cons, ?zlen_repeat, ?zlen_nil. lia.
+      * cbn [andb] in Hn. injection Hn as <-. rewrite zlen_cons, !zlen_repeat. lia.
+    + left. rewrite (normalize_expand nd ix ex A He) in Hn. now injection Hn as <-.
+  - left. unfold normalize_int_array in Hn. cbn [negb andb] in Hn.
+    rewrite (normalize_tuple_expand nd _ ex He) in Hn. now injection Hn as <-.
+Qed.
+
+Lemma gsels_kinds its : forall sh st gs, gsels its sh st = Some gs ->
+  length gs = length its /\
+  (Forall (fun g => match g with GInt _ => True | _ => False end) gs -> Forall (fun it => exists z, it = IInt z) its).
+Proof.
+  induction its as [|it its IH]; intros sh st gs H.
+  - cbn in H. destruct sh; [|discriminate]. injection H as <-. split; [reflexivity | constructor].
+  - assert (Hnew : it = INewaxis \/ it <> INewaxis) by (destruct it; (now left) || (right; discriminate)).
+    destruct Hnew as [->|Hn].
+    + cbn in H. destruct (gsels its sh st) as [gs'|] eqn:E; [|discriminate]. injection H as <-.
+      destruct (IH _ _ _ E) as [L _]. split; [cbn; now rewrite L|]. intros F. inversion F as [|? ? F1 _]. destruct F1.
+    + assert (H' : match sh, st with
+                   | n :: sh', s :: st' =>
+                     if (match it with IList _ => true | _ => sel_ok n it end) then
+                       option_map (cons (match it with
+                                         | IInt z => GInt (norm_idx n z * s)
+                                         | ISlice a b c => GRange (map (fun i => i * s) (slice_idx n a b (step_of c)))
+                                         | IList zs => GAdv (map (fun z => norm_idx n z * s) zs)
+                                         | IMask bs _ => GAdv (map (fun i => i * s) (nonzero_from 0 bs))
+                                         | _ => GNew
+                                         end)) (gsels its sh' st')
+                     else None
+                   | _, _ => None
+                   end = Some gs) by (destruct it; try exact H; now destruct Hn).
+      clear H. destruct sh as [|n sh']; [discriminate|]. destruct st as [|s st']; [discriminate|].
+      destruct (match it with IList _ => true | _ => sel_ok n it end); [|discriminate].
+      destruct (gsels its sh' st') as [gs'|] eqn:E; [|discriminate]. cbn [option_map] in H'. injection H' as <-.
+      destruct (IH _ _ _ E) as [L K]. split; [cbn; now rewrite L|].
+      intros F. inversion F as [|? ? F1 F2]. subst. constructor; [|now apply K].
+      destruct it; try destruct F1. now eexists.
+Qed.
+
+Lemma len_basic gs : (length (flat_map basic_gen gs) <= length gs)%nat /\
+  (existsb g_is_arr gs = true -> (S (length (flat_map basic_gen gs)) <= length gs)%nat).
+Proof.
+  induction gs as [|g gs [IH1 IH2]]; [split; [reflexivity | discriminate]|].
+  cbn [flat_map existsb length]. rewrite app_length. split.
+  - destruct g; cbn; lia.
+  - intros H. destruct g; cbn in *; try (specialize (IH2 H)); lia.
+Qed.
+Lemma len_inplace grp gs : forall p, (length (inplace_gens grp p gs) <= length gs)%nat.
+Proof.
+  induction gs as [|g gs IH]; intros p; [reflexivity|]. cbn [inplace_gens length].
+  destruct (g_is_adv g) eqn:A.
+  - destruct p; cbn [length]; [specialize (IH true) | specialize (IH true)]; lia.
+  - rewrite app_length. specialize (IH p). destruct g; cbn in *; try discriminate; lia.
+Qed.
+Lemma inplace_nonempty grp gs : existsb g_is_adv gs = true -> inplace_gens grp false gs <> [].
+Proof.
+  induction gs as [|g gs IH]; [discriminate|]. cbn [existsb inplace_gens]. destruct (g_is_adv g); [discriminate|].
+  cbn [orb]. intros H E. apply app_eq_nil in E. now apply (IH H).
+Qed.
+Lemma basic_nil_ints gs : existsb g_is_arr gs = false -> flat_map basic_gen gs = [] ->
+  Forall (fun g => match g with GInt _ => True | _ => False end) gs.
+Proof.
+  induction gs as [|g gs IH]; [constructor|]. cbn [existsb flat_map]. intros H E.
+  apply orb_false_elim in H. destruct H as [H1 H2]. apply app_eq_nil in E. destruct E as [E1 E2].
+  constructor; [|now apply IH]. destruct g; cbn in *; try discriminate; exact I.
+Qed.
+Lemma renest_big l vals sh : renest l vals = NPBig sh -> (4 <= length l)%nat.
+Proof. destruct l as [|a [|b [|c [|e l]]]]; cbn; try discriminate. lia. Qed.
+Lemma renest_scalar l vals w : renest l vals = NPScalar w -> l = [].
+Proof. destruct l as [|a [|b [|c [|e l]]]]; cbn; try discriminate. reflexivity. Qed.
+Lemma arr_adv gs : existsb g_is_arr gs = true -> existsb g_is_adv gs = true.
+Proof.
+  induction gs as [|g gs IH]; [discriminate|]. cbn [existsb]. destruct g; cbn; auto.
+Qed.
+
+(* a result above 3-D: the normalised index has more than 3 entries *)
+Lemma np_big_long sh d i s sh' :
+  np_getitem sh d (x_items i) = NPBig sh' -> normalize_x i (zlen sh) = inr s -> 3 < zlen s.
+Proof.
+  unfold np_getitem. destruct (np_expand (zlen sh) (x_items i)) as [ex|] eqn:He; [|discriminate].
+  destruct (strip_new ex) as [k per]. intros H Hn.
+  assert (Hg : np_general sh d (x_items i) ex = NPBig sh').
+  { destruct (regular_per per && (k + zlen sh <=? 3)); [|exact H].
+    destruct (all_ok per sh); [|discriminate]. destruct (np_regular d per); [|discriminate].
+    destruct (wrap_new k n); discriminate. }
+  clear H. unfold np_general in Hg. destruct (gsels ex sh (strides sh)) as [gs|] eqn:G; [|discriminate].
+  destruct (gsels_kinds _ _ _ _ G) as [L _].
+  assert (Hlen : zlen s = zlen ex).
+  { destruct (normalize_x_expand i _ ex s He Hn) as [->|[_ E]]; [apply zlen_map | exact E]. }
+  assert (4 <= length gs)%nat; [|unfold zlen in *; lia].
+  destruct (existsb g_is_arr gs) eqn:A.
+  - destruct (bcast (adv_lens gs)) as [B|]; [|discriminate].
+    destruct ((B =? 0) || lists_ok ex sh); [|discriminate].
+    destruct (adjacent_items 0 (x_items i)); apply renest_big in Hg; rewrite map_length in Hg.
+    + pose proof (len_inplace (group_offs gs B) gs false). lia.
+    + cbn [length] in Hg. pose proof (proj2 (len_basic gs) A). lia.
+  - apply renest_big in Hg. rewrite map_length in Hg. pose proof (proj1 (len_basic gs)). lia.
+Qed.
+
+(* a scalar / 0-d result: every entry of the normalised index is an int *)
+Lemma np_scalar_ints sh d i s w :
+  np_getitem sh d (x_items i) = NPScalar w -> normalize_x i (zlen sh) = inr s ->
+  Forall (fun t => exists z, t = NInt z) s.
+Proof.
+  unfold np_getitem. destruct (np_expand (zlen sh) (x_items i)) as [ex|] eqn:He; [|discriminate].
+  destruct (strip_new ex) as [k per]. intros H Hn.
+  assert (Hg : np_general sh d (x_items i) ex = NPScalar w).
+  { destruct (regular_per per && (k + zlen sh <=? 3)); [|exact H].
+    destruct (all_ok per sh); [|discriminate]. destruct (np_regular d per); [|discriminate].
+    destruct (wrap_new k n); discriminate. }
+  clear H. unfold np_general in Hg. destruct (gsels ex sh (strides sh)) as [gs|] eqn:G; [|discriminate].
+  destruct (gsels_kinds _ _ _ _ G) as [_ K].
+  assert (Hints : Forall (fun it => exists z, it = IInt z) ex).
+  { apply K. destruct (existsb g_is_arr gs) eqn:A.
+    - exfalso. destruct (bcast (adv_lens gs)) as [B|]; [|discriminate].
+      destruct ((B =? 0) || lists_ok ex sh); [|discriminate].
+      destruct (adjacent_items 0 (x_items i)); apply renest_scalar in Hg; apply map_eq_nil in Hg.
+      + now apply (inplace_nonempty _ _ (arr_adv _ A)) in Hg.
+      + discriminate.
+    - apply renest_scalar in Hg. apply map_eq_nil in Hg. now apply basic_nil_ints. }
+  destruct (normalize_x_expand i _ ex s He Hn) as [->|[[bs Hin] _]].
+  - clear - Hints. induction Hints as [|it ex [z ->] _ IH]; cbn [map]; constructor; [now exists z | exact IH].
+  - exfalso. rewrite Forall_forall in Hints. destruct (Hints _ Hin) as [z Hz]. discriminate.
+Qed.
+
+Lemma x_items_abs v : x_items (abs_x v) = abs_items v.
+Proof. destruct v; reflexivity. Qed.
+
+(* TIE 2, the remaining classes: a result above 3-D (the names epoch_slice / channel_slice / time_slice stay unbound) and a
+   0-d array (the time item is an int: NotImplementedError) - an error in the model and in the generated function alike *)
+Theorem gen_getitem_big x v sh' : idx_val v = true ->
+  np_getitem (shape x) (dat x) (abs_items v) = NPBig sh' ->
+  gen_getitem x v = lift_res (getitem_x true x (abs_x v)).
+Proof.
+  intros Hv Hnp. rewrite getitem_x_with. unfold gen_getitem, np_super_getitem, getitem_with. rewrite Hnp.
+  cbn [gbind isinst_PipelineData]. rewrite gen_normalize_index_tie by exact Hv.
+  destruct (normalize_x (abs_x v) (ndim x)) as [e|sn] eqn:En; cbn [lift_norm gbind lift_res]; [reflexivity|].
+  assert (L : 3 < zlen sn).
+  { apply (np_big_long (shape x) (dat x) (abs_x v) sn sh'); [now rewrite x_items_abs | exact En]. }
+  destruct sn as [|t [|c [|e [|e2 sn]]]]; try (vm_compute in L; discriminate L).
+  cbn [py_len map gbind]. rewrite !zlen_cons. pose proof (zlen_nonneg (map emb_n sn)).
+  replace (1 + (1 + (1 + (1 + zlen (map emb_n sn)))) =? 1) with false by lia.
+  replace (1 + (1 + (1 + (1 + zlen (map emb_n sn)))) =? 2) with false by lia.
+  replace (1 + (1 + (1 + (1 + zlen (map emb_n sn)))) =? 3) with false by lia. reflexivity.
+Qed.
+
+Theorem gen_getitem_0d x v w : idx_val v = true ->
+  np_getitem (shape x) (dat x) (abs_items v) = NPScalar w -> existsb is_ell (abs_items v) = true ->
+  gen_getitem x v = lift_res (getitem_x true x (abs_x v)).
+Proof.
+  intros Hv Hnp He. rewrite getitem_x_with. unfold gen_getitem, np_super_getitem, getitem_with. rewrite Hnp, He.
+  cbn [gbind isinst_PipelineData]. rewrite gen_normalize_index_tie by exact Hv.
+  destruct (normalize_x (abs_x v) (ndim x)) as [e|sn] eqn:En; cbn [lift_norm gbind lift_res]; [reflexivity|].
+  assert (F : Forall (fun t => exists z, t = NInt z) sn).
+  { apply (np_scalar_ints (shape x) (dat x) (abs_x v) sn w); [now rewrite x_items_abs | exact En]. }
+  destruct sn as [|t [|c [|e [|e2 sn]]]].
+  - reflexivity.
+  - inversion F as [|? ? [z ->] _]. reflexivity.
+  - inversion F as [|? ? _ F2]. inversion F2 as [|? ? [z ->] _]. reflexivity.
+  - inversion F as [|? ? _ F2]. inversion F2 as [|? ? _ F3]. inversion F3 as [|? ? [z ->] _]. reflexivity.
+  - cbn [py_len map gbind split3]. rewrite !zlen_cons. pose proof (zlen_nonneg (map emb_n sn)).
+    replace (1 + (1 + (1 + (1 + zlen (map emb_n sn)))) =? 1) with false by lia.
+    replace (1 + (1 + (1 + (1 + zlen (map emb_n sn)))) =? 2) with false by lia.
+    replace (1 + (1 + (1 + (1 + zlen (map emb_n sn)))) =? 3) with false by lia. reflexivity.
+Qed.
+
+(* TIE 2, complete: on every array and every index value the generated __getitem__ is the model's getitem -
+   data as NumPy selects them, s0, rate, channel labels, metadata, scalar results and every raised error *)
+Theorem gen_getitem_full x v : idx_val v = true -> gen_getitem x v = lift_res (getitem_x true x (abs_x v)).
+Proof.
+  intros Hv. destruct (np_getitem (shape x) (dat x) (abs_items v)) as [|w|sh d|sh] eqn:E.
+  - now apply gen_getitem_err.
+  - destruct (existsb is_ell (abs_items v)) eqn:L; [now apply (gen_getitem_0d x v w) | now apply (gen_getitem_scalar x v w)].
+  - now apply (gen_getitem_arr x v sh d).
+  - now apply (gen_getitem_big x v sh).
+Qed.
+Theorem gen_getitem_full_model x ix : gen_getitem x (emb_index ix) = lift_res (getitem x ix).
+Proof. rewrite gen_getitem_full by apply idx_val_emb. now rewrite abs_x_emb. Qed.
+(* in particular the generated function never leaves the translated fragment *)
+Corollary gen_getitem_not_stuck x v : idx_val v = true -> gen_getitem x v <> GStuck.
+Proof. intros Hv. rewrite gen_getitem_full by exact Hv. destruct (getitem_x true x (abs_x v)); discriminate. Qed.
+(* a chain of index expressions *)
+Fixpoint gen_getitems (x : pd) (vs : list pyval) : gres pyobj :=
+  match vs with
+  | [] => GOk (OArr x)
+  | v :: t => match gen_getitem x v with GOk (OArr y) => gen_getitems y t | r => r end
+  end.
+Theorem gen_getitems_model : forall ixs x, gen_getitems x (map emb_index ixs) = lift_res (getitems true x ixs).
+Proof.
+  induction ixs as [|ix ixs IH]; intros x; [reflexivity|]. cbn [map gen_getitems getitems].
+  rewrite gen_getitem_full_model. fold (getitem x ix). destruct (getitem x ix); cbn [lift_res]; [apply IH|reflexivity|reflexivity].
+Qed.
